@@ -6,6 +6,7 @@ let runners : (string * (string -> string list -> string list list -> (string ->
   ("C08", Drv_c01.run);
   ("C18", Drv_c18.run);
   ("C10", Drv_c10.run);
+  ("C05", Drv_c05.run);
 ]
 
 let () =
